@@ -2,7 +2,7 @@
 From CV Require Import Proofs.SchedP5.
 From CV Require Import Model.Base Model.Events Model.Contract Model.Normalize Proofs.BaseP Proofs.NormalizeP Proofs.NormalizeP2
   Proofs.NormalizeP3 Proofs.NormalizeP5 Proofs.NormalizeP6.
-From CV Require Proofs.Compose.
+From CV Require Proofs.Compose Proofs.PipelineP2.
 From Coq Require Import Permutation.
 
 (* LOSSLESS. `accepts_run` is the queue discipline the Runner contract guarantees (every event belongs to an
@@ -115,3 +115,11 @@ Theorem C11_nothing_forwardable_is_held_back :
     fst (emit_feats (ns_feats (fst (nhandle s e)))) = [].
 Proof. exact nothing_forwardable_is_held_back. Qed.
 Print Assumptions C11_nothing_forwardable_is_held_back.
+
+(* RUN-FINISHED COMES LAST, after everything else has been forwarded: on every complete contract-abiding stream the
+   forwarded stream ends with its only run-Finished *)
+Theorem C11_run_finished_comes_last :
+  forall es, contract (map snd es) = true ->
+    exists X m, concat (nrun es) = X ++ [(m, EvFinished)] /\ existsb is_finished (map snd X) = false.
+Proof. exact PipelineP2.finished_comes_last. Qed.
+Print Assumptions C11_run_finished_comes_last.
